@@ -71,6 +71,17 @@ CHECKS = {
    technique="deterministic simulation: whole default chain + resolver over a simulated network; clients placed on prefix boundaries; naive per-prefix reference; upstream packet counting",
    text="Seeded search over access lists (families, lengths, nesting, host bits, unparsable entries), views and client rate limits, with clients on and next to every prefix boundary (also IPv4-mapped) over UDP and TCP. Denied clients must get no reply and cause no upstream packet; allowed clients must get the zone's (validated) answer for names that need internal sub-queries, or their first matching view's records. Sampling, not proof.",
    note="Queries enter at Server.ServeMsg (decoded path); the wire ingress path is covered by the W-ing checks. 'Parsable' is netip.ParsePrefix. Cache lookups by denied queries are not observable and are inferred from the absence of a reply and of upstream traffic."),
+
+ "C10": dict(
+   level="exploration", design="§3 C10",
+   technique="deterministic simulation: the real UDP listener/engine/batch I/O over a simulated kernel (recvmmsg/sendmmsg emulated on the caller's mmsghdr arrays), whole chain and resolver over a simulated network; per-operation token in the question's letter case; seeded arrival bursts, kernel faults and yields",
+   text="Seeded search over engine shapes, arrival patterns (bursts from clients that share addresses, IDs and names), packets that end without a reply, kernel faults (partial sendmmsg, errno on sendmmsg/recvmmsg at start or mid-run, poisoned destination, receive-buffer overflow, no raw descriptor) and seeded yields at send points. Every datagram the server sends must be attributable to exactly one operation by (destination address:port, ID, exact question bytes), must be exactly one DNS message, and its records must belong to the question (unique A per name). Sampling, not proof.",
+   note="Goroutine interleaving is the Go scheduler's at GOMAXPROCS=1 for the seeded arrival pattern and yields (select choice and equal-deadline timer order are seeded through a runtime overlay); it is not chosen at lock granularity. UDP only: TCP/TLS/DoH/DoQ stream ordering is not covered."),
+ "C11": dict(
+   level="exploration", design="§3 C11",
+   technique="deterministic simulation: same W-ing world as C10 with upstream zones that are slow, silent, or answer with garbage / the wrong question / TC then a dead TCP connection; reply count and fake-clock latency per operation; drain and quiescence after load",
+   text="Seeded search biased to failing upstreams, identical/related queries in flight and worker pools small enough to queue and overflow. Every well-formed query must get exactly one reply no later than the query timeout plus 1.5 s (fake time), packets that must be ignored get none, rejected packets at most one; unanswered queries are allowed only up to the count the kernel queue and the engine's drop counters report as shed; after the load the listener must drain and the server report quiescence. Sampling, not proof.",
+   note="Shedding is attributed by count, not per query. The 'small scheduling margin' is taken as 1.5 s. UDP only. Goroutine/limiter leak detection is limited to the listener's drain result and Server.Quiesced."),
 }
 
 NOT_APPLICABLE = {
